@@ -33,8 +33,12 @@ def _run(p):
     import numpy as np
     from cyecca.estimate.attitude import launch
     buf = io.StringIO()
+    p = dict(p)
+    before = p.pop("_before", [])
     try:
         with contextlib.redirect_stdout(buf):
+            for q in before:      # earlier launches in the SAME process (their results are not looked at)
+                launch.launch_sim(q)
             data = launch.launch_sim(p)
     except Exception as e:   # noqa: BLE001
         return {"exception": repr(e)}
@@ -118,6 +122,20 @@ def search(ctx):
         if i % 8 == 7:
             params["sim/dt_imu"] = 1.0 / 100; params["logger/dt"] = 1.0 / 100
         runs.append({"tf": tf, "estimators": ["mrp"], "initialize": bool(i % 2 == 0), "x0": [float(v) for v in np.concatenate([r, b])], "params": params})
+    # a launch that follows another launch with different settings in the same process (a notebook / Monte-Carlo driver does this)
+    for i in range(2 if big else 1):
+        r = rng.standard_normal(3); r *= rng.uniform(0.2, 0.9) / np.linalg.norm(r)
+        first = {"tf": 0.3, "estimators": ["mrp"], "initialize": True, "x0": [0.0] * 6,
+                 "params": {"sim/enable_noise": False, "sim/g": 3.7, "mrp/g": 3.7, "sim/mag_str": 0.45, "sim/mag_incl": 0.9, "sim/dt_mag": 1.0 / 25}}
+        runs.append({"tf": tf, "estimators": ["mrp"], "initialize": True, "x0": [float(v) for v in np.concatenate([r, rng.uniform(-0.03, 0.03, 3)])],
+                     "params": {"sim/enable_noise": False}, "_before": [first]})
+    # fast IMU (1 kHz simulation and IMU rate)
+    for i in range(2 if big else 1):
+        r = rng.standard_normal(3); r *= rng.uniform(0.2, 0.9) / np.linalg.norm(r)
+        runs.append({"tf": min(tf, 15.0), "estimators": ["mrp"], "initialize": bool(i % 2 == 0),
+                     "x0": [float(v) for v in np.concatenate([r, rng.uniform(-0.04, 0.04, 3)])],
+                     "params": {"sim/enable_noise": False, "sim/dt_sim": 1e-3, "sim/dt_imu": 1e-3, "sim/mag_incl": float(rng.uniform(-0.8, 0.8))}})
+    n_runs = len(runs)
     ctxmp = mp.get_context("fork")
     with ctxmp.Pool(min(16, n_runs)) as pool:
         res = pool.map(_run, runs)
